@@ -50,6 +50,8 @@ pub fn plan(tier: &str, prop: &str) -> Vec<SubRun> {
         v.push(SubRun { key: "String", alphabet: "tiny", depth: 4, cfg: c(2, true) });
         v.push(SubRun { key: "String", alphabet: "tiny", depth: 3, cfg: c(10_000, true) });
         v.push(SubRun { key: "String", alphabet: "wide", depth: 3, cfg: c(2, false) });
+        v.push(SubRun { key: "String", alphabet: "three", depth: 5, cfg: c(10_000, false) });
+        v.push(SubRun { key: "String", alphabet: "three", depth: 5, cfg: c(2, false) });
         for key in ["Vec<u8>", "u32", "i16", "[u8;2]"] {
             v.push(SubRun { key, alphabet: "typed", depth: 3, cfg: c(2, false) });
         }
@@ -61,6 +63,9 @@ pub fn plan(tier: &str, prop: &str) -> Vec<SubRun> {
         for n in [1, 2, 3, 10_000] {
             v.push(SubRun { key: "String", alphabet: "base", depth: 4, cfg: c(n, true) });
             v.push(SubRun { key: "String", alphabet: "wide", depth: 4, cfg: c(n, false) });
+        }
+        for n in [1, 2, 3, 10_000] {
+            v.push(SubRun { key: "String", alphabet: "three", depth: 6, cfg: c(n, false) });
         }
         v.push(SubRun { key: "String", alphabet: "tiny", depth: 6, cfg: c(4, false) });
         v.push(SubRun { key: "String", alphabet: "tiny", depth: 6, cfg: c(2, true) });
